@@ -161,7 +161,8 @@ class BaseGroupBy(ABC):
 
     def __iter__(self) -> Tuple[Hashable, Union[pd.Series, pd.DataFrame]]:
         for key, indexer in self.groups.items():
-            yield key, self._obj.loc[indexer]
+            # positions, not labels: the object's index can be anything
+            yield key, self._obj.iloc[indexer]
 
     @groupby_aggregation("Compute sum of group values")
     def sum(
@@ -277,12 +278,8 @@ class BaseGroupBy(ABC):
         pd.Series
             Series with nth values
         """
-        result = self._grouper.nth(self._values_to_group, n)
-        return (
-            result
-            if isinstance(result, pd.Series)
-            else pd.Series(result, name=self._obj.name)
-        )
+        # like pandas: the selected rows keep their index labels
+        return self._grouper.nth(self._values_to_group, n, keep_input_index=True)
 
     def head(self, n: int = 5) -> pd.Series:
         """
@@ -298,12 +295,8 @@ class BaseGroupBy(ABC):
         pd.Series
             Series with first n values from each group
         """
-        result = self._grouper.head(self._obj, n)
-        return (
-            result
-            if isinstance(result, pd.Series)
-            else pd.Series(result, name=self._obj.name)
-        )
+        # like pandas: the selected rows keep their index labels
+        return self._grouper.head(self._values_to_group, n, keep_input_index=True)
 
     def tail(self, n: int = 5) -> pd.Series:
         """
@@ -319,12 +312,8 @@ class BaseGroupBy(ABC):
         pd.Series
             Series with last n values from each group
         """
-        result = self._grouper.tail(self._obj, n)
-        return (
-            result
-            if isinstance(result, pd.Series)
-            else pd.Series(result, name=self._obj.name)
-        )
+        # like pandas: the selected rows keep their index labels
+        return self._grouper.tail(self._values_to_group, n, keep_input_index=True)
 
     def agg(self, func, mask: Optional[ArrayType1D] = None) -> pd.Series:
         """
@@ -344,9 +333,9 @@ class BaseGroupBy(ABC):
             if hasattr(self, func):
                 return getattr(self, func)()
             else:
-                result = self._grouper.agg(self._obj, func)
+                result = self._grouper.agg(self._values_to_group, func)
         else:
-            result = self._grouper.apply(self._obj, func)
+            result = self._grouper.apply(self._values_to_group, func)
 
         return result
 
@@ -386,25 +375,27 @@ class BaseGroupBy(ABC):
         **func_kwargs
             Additional keyword arguments to pass to npfunc.
         """
-        return self._grouper.apply(self._obj, func, mask, *func_args, **func_kwargs)
+        return self._grouper.apply(
+            self._values_to_group, func, mask, *func_args, **func_kwargs
+        )
 
     @groupby_cumulative("Cumulative sum")
     def cumsum(self) -> pd.Series:
-        return self._grouper.cumsum(self._obj)
+        return self._grouper.cumsum(self._values_to_group)
 
     @groupby_cumulative("Cumulative maximum")
     def cummax(self) -> pd.Series:
-        return self._grouper.cummax(self._obj)
+        return self._grouper.cummax(self._values_to_group)
 
     @groupby_cumulative("Cumulative minimum")
     def cummin(self) -> pd.Series:
-        return self._grouper.cummin(self._obj)
+        return self._grouper.cummin(self._values_to_group)
 
     @groupby_cumulative(
         "Number each item in each group from 0 to the length of that group - 1"
     )
     def cumcount(self) -> pd.Series:
-        return self._grouper.cumcount(self._obj)
+        return self._grouper.cumcount()
 
     def ema(
         self,
@@ -463,7 +454,7 @@ class BaseGroupBy(ABC):
         dtype: float64
         """
         return self._grouper.ema(
-            self._obj,
+            self._values_to_group,
             alpha=alpha,
             halflife=halflife,
             times=times,
@@ -546,10 +537,15 @@ class SeriesGroupBy(BaseGroupBy):
 
         # Process by argument first (to match pandas order)
         if by is not None:
-            if isinstance(by, (list, tuple)):
-                grouping_keys.extend(by)
-            else:
-                grouping_keys.append(by)
+            for key in by if isinstance(by, (list, tuple)) else [by]:
+                if (
+                    isinstance(key, (str, bytes))
+                    and isinstance(obj, pd.Series)
+                    and key in obj.index.names
+                ):
+                    # like pandas: a label names a level of the index
+                    key = obj.index.get_level_values(key)
+                grouping_keys.append(key)
 
         # Process level argument
         if level is not None:
@@ -647,7 +643,7 @@ class BaseGroupByRolling:
         method = getattr(self._groupby_obj._grouper, f"rolling_{method_name}")
         return self._format_result(
             method(
-                self._groupby_obj._obj,
+                self._groupby_obj._values_to_group,
                 window=self._window,
                 min_periods=self._min_periods,
                 mask=mask,
